@@ -151,6 +151,17 @@ func runCrashWorkload(r *rng, dir string) (*crashWorkload, error) {
 				}
 			}
 			h.files.mu.Unlock()
+			if len(img) > 16 {
+				switch r.intn(4) {
+				case 0:
+					// ... with another format version in it: data that merely looks like the start of a
+					// footer of some other version is not a footer either, the scan has to go on
+					img[2*len(moss.StoreMagicBeg)] ^= 0x07
+				case 1:
+					// ... or just the magic pair and a few bytes
+					img = append(append(append([]byte{}, moss.StoreMagicBeg...), moss.StoreMagicBeg...), 9, 0, 0, 0, 1, 2, 3, 4, 5, 6, 7, 8)
+				}
+			}
 			if len(img) > 0 {
 				b.Set([]byte{}, img)
 				ref[""] = img
